@@ -465,6 +465,33 @@ Definition F21_ignored_chars_in_host (input : list N) : bool :=
   | None => false
   end.
 
+(* hand-written tables (WebExtensions webRequest.ResourceType / Firefox content-policy names -> type;
+   WHATWG URL: special schemes, userinfo percent-encode set, ASCII tab or newline, C0 control or space) *)
+Definition cpt_table_L0 : list (string * request_type) :=
+  [("beacon", RT_Ping); ("csp_report", RT_Csp); ("document", RT_Document); ("main_frame", RT_Document);
+   ("font", RT_Font); ("image", RT_Image); ("imageset", RT_Image); ("media", RT_Media);
+   ("object", RT_Object); ("object_subrequest", RT_Object); ("ping", RT_Ping); ("script", RT_Script);
+   ("stylesheet", RT_Stylesheet); ("sub_frame", RT_Subdocument); ("subdocument", RT_Subdocument);
+   ("websocket", RT_Websocket); ("xhr", RT_Xmlhttprequest); ("xmlhttprequest", RT_Xmlhttprequest);
+   ("other", RT_Other); ("speculative", RT_Other); ("web_manifest", RT_Other); ("xbl", RT_Other);
+   ("xml_dtd", RT_Other); ("xslt", RT_Other)]%string.
+Definition special_schemes_L0 : list string := ["http"; "https"; "ws"; "wss"; "ftp"; "gopher"]%string.
+Definition whatwg_userinfo_encode (b : N) : bool :=
+  N.leb b 31 || N.eqb b 127 || memN b (bs " ""#<>?`{}/:;=@[\\]^|").
+
+(* nothing is lost: [x] is a suffix of [l] *)
+Definition suffix_of {A} (x l : list A) : Prop := exists pre, l = pre ++ x.
+Fixpoint is_suffixb (x l : str) : bool :=
+  str_eqb x l || match l with [] => false | _ :: l' => is_suffixb x l' end.
+
+(* how the host text of the input becomes the reported hostname: copied when ASCII, else idna *)
+Definition host_out (idna : str -> option str) (raw h : str) : Prop :=
+  (all_ascii raw = true /\ h = raw) \/ (all_ascii raw = false /\ idna raw = Some h).
+
+(* carve-out of finding F25: what idna returns must not contain a URL delimiter *)
+Definition idna_no_delimiter (idna : str -> option str) : Prop :=
+  forall h e, idna h = Some e -> existsb (host_forbidden true) e = false.
+
 (* ------------------------------------------------------------------ helpers for the cases *)
 Definition oracle_of {A} (l : list (str * A)) (d : A) (k : str) : A :=
   (fix go l := match l with [] => d | (k', v) :: r => if str_eqb k k' then v else go r end) l.
